@@ -334,6 +334,13 @@ type State struct {
 	concreteAlloc bool
 	loopEntry map[*ssa.BasicBlock]*State
 	entryNext T
+	boxes     map[string]*Val // interface terms made from statically known values (shared, append-only)
+	boxAt     map[string]boxRec // what a cell holds when a boxed value was stored into it (valid while the cell heap keeps that version)
+}
+
+type boxRec struct {
+	b    *Val
+	heap string // term of the cell heap right after the store ("" for register-like locals)
 }
 
 func (s *State) clone() *State {
@@ -343,7 +350,7 @@ func (s *State) clone() *State {
 		ghost: make(map[string]T, len(s.ghost)), ev: s.ev, next: s.next,
 		defers: append([]deferred{}, s.defers...), cut: make(map[*ssa.BasicBlock]bool, len(s.cut)),
 		closures: make(map[string]*FnVal, len(s.closures)), panicking: s.panicking, recovered: s.recovered,
-		prevBlock: s.prevBlock, modHeaps: make(map[string]bool, len(s.modHeaps)), storeLog: s.storeLog, concreteAlloc: s.concreteAlloc, loopEntry: s.loopEntry, entryNext: s.entryNext,
+		prevBlock: s.prevBlock, modHeaps: make(map[string]bool, len(s.modHeaps)), storeLog: s.storeLog, concreteAlloc: s.concreteAlloc, loopEntry: s.loopEntry, entryNext: s.entryNext, boxes: s.boxes, boxAt: copyBoxAt(s.boxAt),
 	}
 	for k, v := range s.vals {
 		n.vals[k] = v
@@ -422,7 +429,7 @@ func (s *State) assume(t T) {
 	if s.ev != nil {
 		n = s.ev.n + 1
 	}
-	s.ev = &Event{Kind: EvAssume, Text: t.S, prev: s.ev, n: n, Init: inInitPhase, Tag: curTag}
+	s.ev = &Event{Kind: EvAssume, Text: t.S, prev: s.ev, n: n, Init: inInitPhase, Tag: curTag, Keep: curKeep}
 }
 
 // heap returns the current term of a heap, creating its initial constant.
@@ -803,4 +810,32 @@ func splitConj(t string) []string {
 		return out
 	}
 	return nil
+}
+
+func copyBoxAt(m map[string]boxRec) map[string]boxRec {
+	if m == nil {
+		return nil
+	}
+	n := make(map[string]boxRec, len(m))
+	for k, v := range m {
+		n[k] = v
+	}
+	return n
+}
+
+// cellKey identifies a whole-cell address (no path) for boxAt; ok is false for anything else.
+func (s *State) cellKey(a *Addr) (key string, heap string, ok bool) {
+	if a == nil || len(a.path) != 0 {
+		return "", "", false
+	}
+	switch a.kind {
+	case aLocal:
+		return fmt.Sprintf("L%p", a.alloc), "", true
+	case aCell:
+		hn := cellHeapName(a.rootT)
+		if h, ok := s.heaps[hn]; ok {
+			return hn + "@" + a.root.S, h.S, true
+		}
+	}
+	return "", "", false
 }
